@@ -6,6 +6,7 @@ package props
 
 import (
 	"reflect"
+	"regexp"
 	"sync/atomic"
 
 	"github.com/parquet-go/parquet-go/format"
@@ -292,6 +293,8 @@ var C15Scenarios = []c15Scenario{
 	{"columnwriters", "one goroutine per ColumnWriter of one Writer", scenColumnWriters, false},
 	{"rowgroups", "row groups from BeginRowGroup filled concurrently, committed in order", scenRowGroups, false},
 	{"rowgroups-pipelined", "as rowgroups, but each row group is committed (in order) while later ones are still being filled", scenRowGroupsPipelined, false},
+	{"rowgroups-reuse", "k row group writers from BeginRowGroup filled concurrently, committed in order and reused after Commit for further rounds (Commit: \"the row group will be empty and can be reused\"), plain and encrypting writers, rows written through the parent writer between rounds; the file must decrypt and hold exactly the rows written, row group by row group", scenRowGroupsReuse, false},
+	{"keptrows", "N goroutines on one *parquet.File each read part of a row group (stopping in the middle of a page), close their reader and keep the rows (byte-array values stay valid after the reader is gone: their buffer is detached from the pools) while the other goroutines go on reading", scenKeptRows, false},
 	{"asyncfile", "N goroutines reading one file opened in ReadModeAsync (rows and seeks), compared with sync mode", scenAsyncFile, false},
 	{"schema", "one fresh *Schema (lazy state not yet built) and the shared codecs used from N goroutines at once", scenSchema, false},
 	{"registries", "process-wide registries and caches: independent Files opened with never-before-seen ReadBufferSize values (bufio.Reader pool registry), never-before-seen Go struct types (schema cache, struct field cache), encoding/codec lookups", scenRegistries, true},
@@ -304,6 +307,18 @@ func C15ScenarioByName(name string) *c15Scenario {
 		}
 	}
 	return nil
+}
+
+// c15ScenarioKey: a scenario that checks its result against the input itself (not only against the
+// serial run) names the situation in brackets at the start of its error; the failure key is
+// "<that name> <scenario>", otherwise "scenario-differs-from-serial <scenario>".
+var c15KeyRe = regexp.MustCompile(`\[([a-z][a-z0-9-]+)\] `)
+
+func c15ScenarioKey(name, text string) string {
+	if m := c15KeyRe.FindStringSubmatch(text); m != nil {
+		return m[1] + " " + name
+	}
+	return "scenario-differs-from-serial " + name
 }
 
 // C15RunScenario runs the serial and the concurrent variant and compares them.
@@ -907,4 +922,277 @@ func scenRegistries(seed int64, par bool) (string, error) {
 		return nil
 	})
 	return digestStrings(outs), err
+}
+
+// ---------------------------------------------------------------- row group writers reused after Commit
+
+type c15Keys struct {
+	footer  []byte
+	columns map[string][]byte
+}
+
+func (k c15Keys) FooterKey([]byte) ([]byte, error) { return k.footer, nil }
+func (k c15Keys) ColumnKey(path []string, _ []byte) ([]byte, error) {
+	p := ""
+	for i, s := range path {
+		if i > 0 {
+			p += "."
+		}
+		p += s
+	}
+	if key, ok := k.columns[p]; ok {
+		return key, nil
+	}
+	return k.footer, nil
+}
+
+// c15RowsDigest is what c15ReadAllFrom returns for a file that holds exactly these rows.
+func c15RowsDigest(rows []C15Row) string {
+	return fmt.Sprintf("%d %s", len(rows), digest([]byte(fmt.Sprintf("%+v", derefRows(rows)))))
+}
+
+// c15Structure renders what does not depend on encryption nonces: rows and pages per row group.
+func c15Structure(f *parquet.File) string {
+	var sb bytes.Buffer
+	for g, rg := range f.RowGroups() {
+		fmt.Fprintf(&sb, "rg%d rows=%d:", g, rg.NumRows())
+		for _, cc := range rg.ColumnChunks() {
+			fmt.Fprintf(&sb, " %d", cc.NumValues())
+		}
+		sb.WriteByte('\n')
+	}
+	return sb.String()
+}
+
+// scenRowGroupsReuse: k row group writers are created once and used for several rounds; in each
+// round they are filled (concurrently when par) and committed in order. Between rounds some rows go
+// through the parent writer itself (flushed by the next Commit as a row group of its own).
+// The expected content of the file is known from the input alone: row group j holds the j-th batch.
+func scenRowGroupsReuse(seed int64, par bool) (string, error) {
+	schema := parquet.SchemaOf(C15Row{})
+	var outs []string
+	for variant := 0; variant < 6; variant++ {
+		r := rand.New(rand.NewSource(seed*61 + int64(variant)))
+		k := 2 + r.Intn(3)
+		rounds := 2 + r.Intn(2)
+		ownRows := variant%2 == 1 // rows through the parent writer between rounds
+		var keys *c15Keys
+		opts := []parquet.WriterOption{schema,
+			parquet.Compression(c15Codecs[(int(seed)+variant)%len(c15Codecs)]),
+			parquet.PageBufferSize([]int{256, 1024, 8192}[r.Intn(3)]),
+			parquet.DataPageVersion(1 + variant%2),
+			parquet.MaxRowsPerRowGroup(100000),
+		}
+		switch variant / 2 {
+		case 1: // encrypted footer, one key
+			keys = &c15Keys{footer: []byte("0123456789abcdef")}
+			opts = append(opts, parquet.WithEncryption(&parquet.EncryptionConfig{FooterKey: keys.footer, EncryptedFooter: true}))
+		case 2: // plaintext footer, per-column keys, AAD prefix
+			keys = &c15Keys{footer: []byte("fedcba9876543210fedcba9876543210"), columns: map[string][]byte{"raw": []byte("rawrawrawrawrawr"), "sub.y": []byte("subysubysubysuby")}}
+			opts = append(opts, parquet.WithEncryption(&parquet.EncryptionConfig{FooterKey: keys.footer, ColumnKeys: keys.columns, AadPrefix: []byte("c15"), FileIdentifier: []byte("c15reuse")}))
+		}
+		var buf bytes.Buffer
+		w := parquet.NewGenericWriter[C15Row](&buf, opts...)
+		rgs := make([]*parquet.ConcurrentRowGroupWriter, k)
+		for i := range rgs {
+			rgs[i] = w.BeginRowGroup()
+		}
+		var want []C15Row // in file order
+		var wantGroups []int
+		base := int64(0)
+		for round := 0; round < rounds; round++ {
+			batches := make([][]C15Row, k)
+			inputs := make([][]parquet.Row, k)
+			for i := range batches {
+				batches[i] = c15Rows(r, 40+r.Intn(160), base)
+				base += int64(len(batches[i]))
+				for j := range batches[i] {
+					inputs[i] = append(inputs[i], schema.Deconstruct(nil, &batches[i][j]).Clone())
+				}
+			}
+			flushAt := r.Intn(3) // 0: never call rg.Flush; else: call it after that many WriteRows calls
+			err := fanout(par, k, func(i int) error {
+				calls := 0
+				for off := 0; off < len(inputs[i]); off += 23 {
+					end := min(off+23, len(inputs[i]))
+					if _, err := rgs[i].WriteRows(inputs[i][off:end]); err != nil {
+						return err
+					}
+					if calls++; calls == flushAt {
+						if err := rgs[i].Flush(); err != nil {
+							return err
+						}
+					}
+				}
+				return nil
+			})
+			if err != nil {
+				return "", fmt.Errorf("variant %d round %d: %w", variant, round, err)
+			}
+			for i := range rgs {
+				n, err := rgs[i].Commit()
+				if err != nil {
+					return "", fmt.Errorf("variant %d round %d: Commit of row group writer %d: %w", variant, round, i, err)
+				}
+				if n != int64(len(batches[i])) {
+					return "", fmt.Errorf("variant %d round %d: Commit of row group writer %d reports %d rows, %d were written", variant, round, i, n, len(batches[i]))
+				}
+				want = append(want, batches[i]...)
+				wantGroups = append(wantGroups, len(batches[i]))
+			}
+			if ownRows {
+				own := c15Rows(r, 30+r.Intn(50), base)
+				base += int64(len(own))
+				if _, err := w.Write(own); err != nil {
+					return "", err
+				}
+				// flushed as its own row group by the next Commit, or by Close after the last round
+				want = append(want, own...)
+				wantGroups = append(wantGroups, len(own))
+			}
+		}
+		if err := w.Close(); err != nil {
+			return "", fmt.Errorf("variant %d: Close: %w", variant, err)
+		}
+		data := buf.Bytes()
+		var fopts []parquet.FileOption
+		if keys != nil {
+			fopts = append(fopts, parquet.WithDecryption(*keys))
+		}
+		f, err := parquet.OpenFile(bytes.NewReader(data), int64(len(data)), fopts...)
+		if err != nil {
+			return "", fmt.Errorf("[reused-rowgroup-writers-file-unreadable] variant %d (k=%d rounds=%d encryption=%d): the written file does not open: %w", variant, k, rounds, variant/2, err)
+		}
+		if got := len(f.RowGroups()); got != len(wantGroups) {
+			return "", fmt.Errorf("[reused-rowgroup-writers-file-differs] variant %d: file has %d row groups, %d were committed", variant, got, len(wantGroups))
+		}
+		for g, rg := range f.RowGroups() {
+			if rg.NumRows() != int64(wantGroups[g]) {
+				return "", fmt.Errorf("[reused-rowgroup-writers-file-differs] variant %d: row group %d has %d rows, the %d-th commit held %d", variant, g, rg.NumRows(), g, wantGroups[g])
+			}
+		}
+		txt, err := c15ReadAllFrom(f)
+		if err != nil {
+			return "", fmt.Errorf("[reused-rowgroup-writers-file-unreadable] variant %d (k=%d rounds=%d encryption=%d parent-writer-rows=%v): reading the file back: %w", variant, k, rounds, variant/2, ownRows, err)
+		}
+		if exp := c15RowsDigest(want); txt != exp {
+			return "", fmt.Errorf("[reused-rowgroup-writers-file-differs] variant %d (k=%d rounds=%d encryption=%d): the file does not hold the rows written in commit order: read %s, written %s", variant, k, rounds, variant/2, txt, exp)
+		}
+		if keys == nil {
+			outs = append(outs, digest(data))
+		}
+		outs = append(outs, txt, c15Structure(f))
+	}
+	return digestStrings(outs), nil
+}
+
+// ---------------------------------------------------------------- rows kept after Close
+
+// scenKeptRows: every goroutine reads a few rows starting somewhere inside a page, closes its reader
+// and keeps the rows, then reads other parts of the file (which takes page buffers from the
+// process-wide pools). What it kept is rendered right after reading and again when all goroutines
+// are done: the two must agree. Two files: one shared *File, and PLAIN / DELTA / dictionary byte
+// array columns side by side in C15Row.
+func scenKeptRows(seed int64, par bool) (string, error) {
+	schema := parquet.SchemaOf(C15Row{})
+	rows := c15Rows(rand.New(rand.NewSource(seed)), 900, 0)
+	data, err := c15WriteFile(rows, schema, parquet.PageBufferSize(2048), parquet.MaxRowsPerRowGroup(300),
+		parquet.Compression(c15Codecs[int(seed)%len(c15Codecs)]), parquet.DataPageVersion(1+int(seed)%2))
+	if err != nil {
+		return "", err
+	}
+	f, err := parquet.OpenFile(bytes.NewReader(data), int64(len(data)))
+	if err != nil {
+		return "", err
+	}
+	const n = 8
+	type held struct {
+		rows []parquet.Row
+		text string
+		at   string
+	}
+	kept := make([][]held, n)
+	outs := make([]string, n)
+	err = fanout(par, n, func(i int) error {
+		r := rand.New(rand.NewSource(seed*17 + int64(i)))
+		var sb bytes.Buffer
+		for round := 0; round < 6; round++ {
+			g := r.Intn(len(f.RowGroups()))
+			rg := f.RowGroups()[g]
+			from := int64(r.Intn(int(rg.NumRows()) - 20))
+			count := 1 + r.Intn(12)
+			rr := rg.Rows()
+			if err := rr.SeekToRow(from); err != nil {
+				rr.Close()
+				return err
+			}
+			buf := make([]parquet.Row, count)
+			got, err := rr.ReadRows(buf)
+			if err != nil && err != io.EOF {
+				rr.Close()
+				return err
+			}
+			h := held{rows: buf[:got], text: rowsText(buf[:got]), at: fmt.Sprintf("row group %d rows %d..%d", g, from, from+int64(got))}
+			if err := rr.Close(); err != nil {
+				return err
+			}
+			kept[i] = append(kept[i], h)
+			sb.WriteString(h.text)
+			// other work of the same goroutine: a stretch of another row group, read to its end
+			other := f.RowGroups()[(g+1)%len(f.RowGroups())]
+			or := other.Rows()
+			if err := or.SeekToRow(other.NumRows() - int64(40+r.Intn(100))); err != nil {
+				or.Close()
+				return err
+			}
+			tail := make([]parquet.Row, 32)
+			for {
+				m, err := or.ReadRows(tail)
+				sb.WriteString(rowsText(tail[:m]))
+				if err != nil {
+					if err != io.EOF {
+						or.Close()
+						return err
+					}
+					break
+				}
+			}
+			if err := or.Close(); err != nil {
+				return err
+			}
+			for _, h := range kept[i] {
+				if now := rowsText(h.rows); now != h.text {
+					a, b := c15FirstDiff(h.text, now)
+					return fmt.Errorf("[rows-kept-after-close-changed] goroutine %d: rows it kept from %s changed after their reader was closed and other readers ran: read %s, now %s", i, h.at, a, b)
+				}
+			}
+		}
+		outs[i] = sb.String()
+		return nil
+	})
+	if err != nil {
+		return "", err
+	}
+	for i := range kept {
+		for _, h := range kept[i] {
+			if now := rowsText(h.rows); now != h.text {
+				a, b := c15FirstDiff(h.text, now)
+				return "", fmt.Errorf("[rows-kept-after-close-changed] goroutine %d: rows it kept from %s changed after all goroutines finished: read %s, now %s", i, h.at, a, b)
+			}
+		}
+	}
+	return digestStrings(outs), nil
+}
+
+// c15FirstDiff cuts two texts down to the neighbourhood of their first difference.
+func c15FirstDiff(a, b string) (string, string) {
+	i := 0
+	for i < len(a) && i < len(b) && a[i] == b[i] {
+		i++
+	}
+	cut := func(s string) string {
+		lo, hi := max(0, i-20), min(len(s), i+30)
+		return fmt.Sprintf("%q", s[lo:hi])
+	}
+	return cut(a), cut(b)
 }
